@@ -1,7 +1,8 @@
 -------------------------- MODULE PaymentsAlphabet --------------------------
 (* Prints a request alphabet / case matrix of Payments.tla (configuration     *)
 (* IOEnv.PM_CFG) as JSON: the harness explores the real node with exactly the  *)
-(* channels, hashes and requests the specification names.                      *)
+(* channels, hashes and requests the specification names, under the policy     *)
+(* (payment velocity limit vlim) the configuration names.                      *)
 EXTENDS Payments, Json, IOUtils, SequencesExt
 
 Cfg == Config(IOEnv.PM_CFG)
@@ -10,5 +11,5 @@ Init == x = 0
 Next == UNCHANGED x
 ASSUME Cfg.reqs # {}
 ASSUME JsonSerialize(IOEnv.PM_OUT, [chans |-> SetToSeq(Cfg.chans), hashes |-> SetToSeq(Cfg.hashes),
-                                    reqs |-> SetToSeq(Cfg.reqs)])
+                                    reqs |-> SetToSeq(Cfg.reqs), vlim |-> Cfg.vlim])
 =============================================================================
